@@ -343,6 +343,13 @@ pub fn behaviour(text: &str, horizon: usize) -> Behaviour {
     })
 }
 
+// The rewritten program is rejected by the definition-order check alone, and the reference model of
+// that rule agrees that the program breaks it.
+fn rejected_by_the_order_rule(s: &S, text: &str) -> bool {
+    let order_only = sem::front_end(text, |f| matches!(f, FrontEnd::Rejected { order_only: true, .. }));
+    order_only && surface::resolve(s, &[]).is_ok_and(|m| sem::order_rule_violated(&m))
+}
+
 fn stuck_by_order_value(text: &str, horizon: usize) -> bool {
     sem::front_end(text, |f| match f {
         FrontEnd::Accepted(acc) => {
@@ -381,7 +388,18 @@ fn search(initial: &S, goal: &Ty, depth: usize, horizon: usize, light: bool) {
                 if b == b0 {
                     count!("traces_validated");
                     next.push((t, p));
+                } else if matches!(b, Behaviour::Rejected("parse"))
+                    && name == "R5/R6-inner"
+                    && crate::findings::is_known("F-ORDER-SYNTACTIC")
+                    && rejected_by_the_order_rule(&t, &text)
+                {
+                    // Wrapping a definition that is a value (so available to the whole group) in an
+                    // applied identity function or a conditional makes it a computed definition; an
+                    // earlier computed definition that uses it then breaks the (syntactic)
+                    // definition-order rule and the program is rejected. Not expanded further.
+                    crate::infra::known("F-ORDER-SYNTACTIC", || format!("{text0}   --{}-->   {text}", p.join(", ")));
                 } else if b == Behaviour::Stuck && crate::findings::is_known("F-ORDER-VALUE") && stuck_by_order_value(&text, horizon * 4) {
+                    // (F-ORDER-VALUE is repaired; the classifier stays so that a regression is named.)
                     // The rewritten program is accepted and then needs a function that is defined later
                     // in its group: the known defect of the definition-order check (C01), seen here as a
                     // reordering that changes behaviour. Not expanded further.
